@@ -4,7 +4,7 @@ From Coq Require String.
 From PS.model Require Import Smt Enc Ind Prog.
 From PS.spec Require Import Spec.
 From Coq Require Import Permutation Sorted.
-From PS.proofs Require Import Base C08_proof Reach_proof C08_reach SortNoDup IdleSum C04_distance C08_idle Examples3.
+From PS.proofs Require Import Base C08_proof Reach_proof C08_reach SortNoDup IdleSum C04_distance C08_idle Examples3 Refuted.
 Import ListNotations.
 Open Scope Z_scope.
 
@@ -73,3 +73,27 @@ Theorem C08_hypotheses_satisfiable : exists st, reaches ex3_prog st /\ sat ex3_e
   /\ List.length (x_objs (ps_ext st)) = 4%nat /\ List.length (spec_C08 st) = 19%nat.
 Proof. exact ex3_sat. Qed.
 Print Assumptions C08_hypotheses_satisfiable.
+
+(* ---- REFUTED on the pinned code (open known findings): the swept clauses below are NOT consequences of the assertion set.
+   Each theorem exhibits a reachable problem state, a valuation the assertion set admits, and a clause of the swept list that is
+   false under it -- all three evaluated by the kernel.  The same program and schedule, replayed on /repo, is the finding. ---- *)
+(* F34: the single-resource flow time indicator is not the span of the tasks of the resource inside the window *)
+Theorem C08_flowtime_single_resource_refuted : exists st, reaches f34_prog st /\ sat f34_env (initialize st) /\
+  exists k f, In (k, f) (spec_C08_swept st) /\ feval f34_env f = false.
+Proof. exact F34_refuted_any. Qed.
+Print Assumptions C08_flowtime_single_resource_refuted.
+(* F38: IndicatorMaximumLateness takes the maximum over unscheduled optional tasks too *)
+Theorem C08_max_lateness_optional_refuted : exists st, reaches f38_prog st /\ sat f38_env (initialize st) /\
+  exists k f, In (k, f) (spec_C08_swept st) /\ feval f38_env f = false.
+Proof. exact F38_refuted_any. Qed.
+Print Assumptions C08_max_lateness_optional_refuted.
+(* F18: IndicatorNumberTasksAssigned on a CumulativeWorker does not count the tasks that require it *)
+Theorem C08_nb_tasks_cumulative_refuted : exists st, reaches f18_prog st /\ sat f18_env (initialize st) /\
+  exists k f, In (k, f) (spec_C08_swept st) /\ feval f18_env f = false.
+Proof. exact F18_refuted_any. Qed.
+Print Assumptions C08_nb_tasks_cumulative_refuted.
+(* F07n: IndicatorNumberTasksAssigned does not count a task assigned to the resource after the indicator was created *)
+Theorem C08_nb_tasks_late_refuted : exists st, reaches f07n_prog st /\ sat f07n_env (initialize st) /\
+  exists k f, In (k, f) (spec_C08_swept st) /\ feval f07n_env f = false.
+Proof. exact F07n_refuted_any. Qed.
+Print Assumptions C08_nb_tasks_late_refuted.
